@@ -42,23 +42,50 @@ def basis(t: T) -> List[Any]:
     return out
 
 
-def make_cases(t: T, k: int) -> List[Tuple[sg.Schema, List[Any], str]]:
+def patterns(t: T) -> List[Any]:
+    """Value patterns beyond the single-bit basis: extremes, alternating bits, the two top bits differing."""
+    if t.kind == "bool":
+        return [False, True]
+    n = 8 if t.kind == "byte" else t.n
+    alt = int("10" * 32, 2) & ((1 << n) - 1)
+    raw = [(1 << n) - 1, 1 << (n - 1), alt, alt >> 1, (1 << (n - 1)) | 1, ((1 << n) - 1) ^ (1 << (n - 1)) if n > 1 else 0]
+    out, seen = [], set()
+    for r in raw:
+        v = r - (1 << n) if (t.kind == "int" and r >> (n - 1)) else r
+        if v not in seen:
+            seen.add(v)
+            out.append(v)
+    return out
+
+
+def make_cases(t: T, k: int, only=None) -> List[Tuple[sg.Schema, List[Any], str]]:
     """Three messages in one file: scalar, array element (3 elements: later elements sit at
     further offsets; standard widths take the batch path in C), alias."""
     base = f"w{type_text(t)}o{k}"
     tt = type_text(t)
     pad = f"    uint{k} pad = 1\n" if k else ""
     text = (f"proto {base}\n\ntype Al = {tt}\n\nmessage Sc {{\n{pad}    {tt} x = 2\n}}\n\n"
-            f"message Ar {{\n{pad}    {tt}[3] x = 2\n}}\n\nmessage Li {{\n{pad}    Al x = 2\n}}\n")
+            f"message Ar {{\n{pad}    {tt}[3] x = 2\n}}\n\nmessage Li {{\n{pad}    Al x = 2\n}}\n\n"
+            f"message Fo {{\n{pad}    {tt} x = 2\n    uint64 f1 = 3\n    uint64 f2 = 4\n}}\n")
     padf = [(1, "pad", T("uint", n=k))] if k else []
     bs = basis(t)
     out = []
-    for name, ft, vals in (
-        ("Sc", t, [{**({1: 0} if k else {}), 2: b} for b in bs] + [{**({1: (1 << k) - 1} if k else {}), 2: b} for b in bs[:2]]),
-        ("Ar", T("arr", cap=3, t=t), [{**({1: (1 << k) - 1} if k else {}), 2: [b, bs[0], bs[(i + 1) % len(bs)]]} for i, b in enumerate(bs)]),
-        ("Li", T("alias", t=t, name="Al"), [{**({1: 0} if k else {}), 2: b} for b in bs]),
-    ):
-        top = T("msg", name=name, fields=padf + [(2, "x", ft)])
+    padv = {1: (1 << k) - 1} if k else {}
+    shapes = (
+        ("Sc", t, [{**({1: 0} if k else {}), 2: b} for b in bs] + [{**padv, 2: b} for b in bs[:2]], []),
+        ("Ar", T("arr", cap=3, t=t), [{**padv, 2: [b, bs[0], bs[(i + 1) % len(bs)]]} for i, b in enumerate(bs)], []),
+        ("Li", T("alias", t=t, name="Al"), [{**({1: 0} if k else {}), 2: b} for b in bs], []),
+        # the field in the MIDDLE of a buffer (word-at-a-time fast paths only engage when enough bytes follow),
+        # followers all-zeros / all-ones / alternating so that a spill in either direction shows
+        ("Fo", t, [{**(padv if i % 2 else ({1: 0} if k else {})), 2: b, 3: f, 4: (1 << 64) - 1 - f}
+                   for i, b in enumerate(patterns(t)[:3] if only else patterns(t))
+                   for f in ((0, (1 << 64) - 1) if only else (0, (1 << 64) - 1, 0xAAAAAAAAAAAAAAAA))],
+         [(3, "f1", T("uint", n=64)), (4, "f2", T("uint", n=64))]),
+    )
+    for name, ft, vals, followers in shapes:
+        if only is not None and name not in only:
+            continue
+        top = T("msg", name=name, fields=padf + [(2, "x", ft)] + followers)
         f = sg.SFile(0, base, base)
         s = sg.Schema([f], top)
         s.texts = {base + ".bitproto": text}
@@ -74,11 +101,20 @@ def run(ck):
     cases = []
     for t, k in pairs:
         cases.extend(make_cases(t, k))
+    if ck.quick:
+        # every (type, offset) pair in the Python runtime, mid-buffer shape only: a defect confined to ONE pair must
+        # not depend on the seed's slice to be seen
+        sliced = set((type_text(t), k) for t, k in pairs)
+        for t in types:
+            for k in range(8):
+                if (type_text(t), k) not in sliced:
+                    cases.extend(make_cases(t, k, only=("Fo",)))
     pywire.run_py_wire(ck, "C14.v", want_decode=True, n_quick=(0, 0), n_thorough=(0, 0), extra_cases=cases)
     ck.coverage["exhaustive"] = not ck.quick
     ck.coverage["rule"] = ("the finite space {bool, byte, uint1..64, int1..64} x bit offset 0..7 x {scalar, 3-element array, alias} x "
-                           "basis values (zero, all-ones, every single bit, min, max; pad all-zeros and all-ones); quick = the 1/16 slice "
-                           "of (type, offset) pairs selected by the seed, thorough = all 1040 pairs; executed on the real Python runtime "
+                           "basis values (zero, all-ones, every single bit, min, max; pad all-zeros and all-ones) plus a mid-buffer shape (two uint64 "
+                           "followers, alternating / extreme patterns); quick = the 1/16 slice of (type, offset) pairs selected by the seed in all "
+                           "runtimes + ALL 1040 pairs in the mid-buffer shape in the Python runtime, thorough = all 1040 pairs, all shapes, all runtimes; executed on the real Python runtime "
                            "(encode, decode, re-encode) against Spec evaluated in Coq")
     ck.coverage["tie"]["type_offset_pairs"] = len(pairs)
     try:
